@@ -102,6 +102,8 @@ fn alphabet() -> Vec<Sym> {
         s(B, pm(1, 9, 4, 2, false), Tok::Own),
         s(A, pm(1, 9, 4, 0, true), Tok::Own),
         s(A, pm(2, 9, 5, 0, true), Tok::Own),
+        // a salt key that is present but empty: BEP44 treats it as no salt (nothing about it is signed)
+        s(A, pm(1, 9, 0, 0, false), Tok::Own),
         s(A, pm(1, 1000, 4, 0, false), Tok::Own),
         s(A, pm(1, 1001, 4, 0, false), Tok::Own),
         s(A, pm(1, 9, 64, 0, false), Tok::Own),
